@@ -103,7 +103,7 @@ def run(pid, t, replay=None):
     coverage = dict(
         states=dist, transitions=gen_n, traces_validated_against_impl=len(scns) - len(stalled), evaluations=consumed,
         distinct_nontrivial=len(cases) + N[t]["lottery"],
-        rule="non-trivial = gating case (path shape x work relative to requirement x elapsed-time class, all 378 from MC_Work) or "
+        rule="non-trivial = gating case (path shape x work relative to requirement x elapsed-time class, all 462 from MC_Work) or "
              "lottery scenario (distinct ticket seed over blocks of routed fee-paying transactions); economy scenarios add payouts "
              "across forks, rebroadcasts and ticket gaps; the requirement function is sampled on a boundary grid",
         exercised=st, samples=[scns[0], scns[len(cases) + 8]], exhaustive=False,
